@@ -1143,7 +1143,7 @@ func (d *drv) scenario(h []Ev) (err error) {
 			// (whatever an object keeps from an earlier expiration is there when the scenario starts)
 			fired := false
 			if t.ScheduleOnce(time.Microsecond, func() { fired = true }) == nil {
-				for k := 0; k < 200 && !fired; k++ {
+				for k := 0; k < 3000 && !fired; k++ {
 					_ = d.ioc.RunOneFor(time.Millisecond)
 				}
 			}
